@@ -1,6 +1,6 @@
 (* C19 — Incentive payouts never exceed their funding and follow farmed share.
    Property theorems only; each is closed by a lemma proved in Proofs/GaugeProofs.v. *)
-From Comdex Require Import Lib.Base Lib.DecArith Lib.F64 Model.Gauge Proofs.GaugeProofs Proofs.GaugeStableProofs.
+From Comdex Require Import Lib.Base Lib.DecArith Lib.F64 Model.Gauge Proofs.GaugeProofs Proofs.GaugeStableProofs Proofs.GaugeMetaProofs.
 
 (* the per-epoch allocations sum exactly to the deposit, there is one per epoch, and each is the
    floor or the floor + 1 of deposit / epochs.  Guards exactly as coded: deposit < epochs gives
@@ -224,6 +224,38 @@ Example c19_master_example :
   eligible (FarmMaster [(1, 3000000000000000000); (2, 5000000000000000000)] [2000000000000000000; 0])
   = [(1, 2000000000000000000); (2, 0)].
 Proof. vm_compute. split; reflexivity. Qed.
+
+(* eligibility follows the child-pool list THE GAUGE WAS CREATED WITH ([m] = what MsgCreateGauge carried;
+   [farm_env_of] computes the environment of the gauge from it and from the per-pool farmed values of the
+   pool's active farmers): a master gauge with child pools pays only accounts that farm a positive value in
+   the gauge's pool AND in those child pools - the listed ones, or every other enabled pool when none is
+   listed - and what a farmer farms in a pool outside them counts for nothing.  The runner compares the
+   stored gauge record (PoolId, IsMasterPool, ChildPoolIds) with [m] after every step and judges
+   holds_C19_share with the eligibility [farm_env_of m] defines. *)
+Theorem c19_master_child_list : forall m others obs coins ps a r,
+  m_master m = true -> child_ids m others <> [] -> obs_wf obs -> 0 <= coins ->
+  farm_calc (farm_env_of m others obs) coins = Ok ps -> In (a, r) ps -> 0 < r ->
+  exists o, In o obs /\ fo_acct o = a /\ 0 < fo_value o /\ 0 < child_value (child_ids m others) (fo_others o).
+Proof. exact master_paid_only_listed. Qed.
+Print Assumptions c19_master_child_list.
+
+Theorem c19_unlisted_pool_counts_nothing : forall ids vals,
+  (forall pv, In pv vals -> In (fst pv) ids -> snd pv = 0) -> child_value ids vals = 0.
+Proof. exact child_value_unlisted. Qed.
+Print Assumptions c19_unlisted_pool_counts_nothing.
+
+(* three pools; master gauge on pool 1 created with the child list [2]; farmer 1 farms pools 1 and 2, farmer 2
+   pools 1 and 3 (unlisted), farmer 3 pool 1 only: the whole allocation goes to farmer 1.  With NO list every
+   other pool is a child pool and farmer 2 is paid as well. *)
+Example c19_master_child_list_example :
+  let obs := [(1, 3000000000000000000, [(2, 2000000000000000000)]);
+              (2, 5000000000000000000, [(3, 4000000000000000000)]);
+              (3, 1000000000000000000, [])] in
+  farm_calc (farm_env_of (mkMeta 1 true [2]) [2; 3] obs) 1000 = Ok [(1, 1000)] /\
+  eligible (farm_env_of (mkMeta 1 true [2]) [2; 3] obs) = [(1, 2000000000000000000); (2, 0); (3, 0)] /\
+  farm_calc (farm_env_of (mkMeta 1 true []) [2; 3] obs) 1200 = Ok [(1, 400); (2, 800)] /\
+  child_ids (mkMeta 1 true [2; 1]) [2; 3] = [2].
+Proof. vm_compute. repeat split; reflexivity. Qed.
 
 Example c19_epoch_timing_example :
   epoch_tick 100 (mkEpoch false 3 30 40) = (mkEpoch false 4 70 40, TTrigger) /\
